@@ -41,6 +41,19 @@
 //	fragments   impSpec.frag: a plain function is translated from the statement that declares a given
 //	            variable to its end; the variables live at that point are declared inputs.
 //
+// Units with impConfig.byteElems (the per-session filter list, wasp/sessions AddTopic / RemoveTopic):
+//
+//	types       a []byte value is an immutable ELEMENT value (never indexed, sliced or written), rendered
+//	            as impConfig.bytesLean (List Char); [][]byte is a slice of such values
+//	calls       bytes.Equal(a, b) on two such values (Go.eq)
+//	statements  for i, v := range path {…} / for _, v := range path {…} over a SNAPSHOT of path taken at loop
+//	            entry (Go evaluates the range expression once); the body may update path only by
+//	            path[i] = e (the current range index) and path = path[:e] - see rangeValueLoop
+//
+// Units with impConfig.byteSlices (sessions.prefixMountPoint): []byte is a slice of bytes (List Char) and a
+// Go string the read-only slice of its bytes; make([]byte, n) (guard 0 <= n), the statement
+// copy(local[a:b], src) (Go.copyAt, src sharing nothing with the local), byte literals, a []byte result.
+//
 // The receiver is threaded as a VALUE: a method  func (m *T) F(a A) R  becomes
 //
 //	def f (m : T) (a : A) : Option (T × R)        (Option T when there is no result)
@@ -107,6 +120,16 @@ type impConfig struct {
 	ext        bool
 	externs    []impExtern
 	dropFields []string // "Type.Field"
+	// byteElems: a []byte value is an immutable element value (never indexed, sliced, appended to or written
+	// through in the subset), so [][]byte is a slice of such values and a []byte local / range value
+	// variable is a copy of a value; bytesLean names the Lean type it is rendered as ("" = Go.Bytes)
+	byteElems bool
+	bytesLean string
+	// byteSlices: []byte is an ordinary slice of bytes ("[]char": indexed, sliced, written), rendered as
+	// List Char, and a Go string is the read-only slice of its bytes (len, []byte(s)) - the reading of
+	// Translated.lean (trimMountPoint). Adds make([]byte, n), copy(path[a:b], src), byte literals.
+	byteSlices bool
+	imports    []string // further Lean modules the generated file imports
 }
 
 type impConst struct{ name, typ, val, rel, doc string }
@@ -159,6 +182,7 @@ type impFn struct {
 	fragment      bool
 	inlining      int
 	dropAfterLoop string // range loops: the index variable goes out of scope after the loop
+	dropSnapshot  string // range loops with a value variable: so does the snapshot of the range expression
 }
 
 // placeholders for the external-function parameters / arguments of a definition; replaced once the
@@ -220,6 +244,9 @@ func (u *impUnit) goTypeN(e ast.Expr, nested bool) (string, bool) {
 		if x.Name == "bool" {
 			return "bool", true
 		}
+		if u.cfg != nil && u.cfg.byteSlices && x.Name == "string" {
+			return "[]char", true
+		}
 		if u.cfg != nil && (x.Name == "string" || x.Name == "error") {
 			return x.Name, true
 		}
@@ -228,10 +255,13 @@ func (u *impUnit) goTypeN(e ast.Expr, nested bool) (string, bool) {
 		}
 	case *ast.ArrayType:
 		if x.Len == nil {
+			if u.cfg != nil && u.cfg.byteSlices && exprString(x.Elt) == "byte" {
+				return "[]char", true
+			}
 			if u.cfg != nil && exprString(x.Elt) == "byte" {
 				return "bytes", true
 			}
-			if et, ok := u.goTypeN(x.Elt, nested); ok && et != "mutex" && et != "bytes" && et != "error" && (nested || !strings.HasPrefix(et, "[]")) {
+			if et, ok := u.goTypeN(x.Elt, nested); ok && et != "mutex" && (et != "bytes" || (u.cfg != nil && u.cfg.byteElems)) && et != "error" && (nested || !strings.HasPrefix(et, "[]")) {
 				return "[]" + et, true
 			}
 		}
@@ -252,7 +282,9 @@ func (u *impUnit) goTypeN(e ast.Expr, nested bool) (string, bool) {
 	return "", false
 }
 
-func isScalar(t string) bool { return t == "int" || t == "bool" || t == "any" || t == "string" }
+func isScalar(t string) bool {
+	return t == "int" || t == "bool" || t == "any" || t == "string" || t == "char"
+}
 
 // files lists the files declarations are looked up in: the unit's file, or (impConfig) every
 // non-test .go file of its directory, the unit's file first.
@@ -474,7 +506,7 @@ func (u *impUnit) useStruct(name string, isRecv bool) *impStruct {
 				continue
 			}
 			el := strings.TrimPrefix(ft, "[]")
-			if !isScalar(el) {
+			if !isScalar(el) && el != "bytes" {
 				u.useStruct(el, false)
 			}
 			s.fields = append(s.fields, impField{n.Name, ft})
@@ -483,6 +515,9 @@ func (u *impUnit) useStruct(name string, isRecv bool) *impStruct {
 	u.emitted = append(u.emitted, name)
 	return s
 }
+
+// leanBytes: the Lean type of a []byte value in the unit being translated (impConfig.bytesLean)
+var leanBytes = "Go.Bytes"
 
 func leanType(t string) string {
 	switch {
@@ -494,8 +529,12 @@ func leanType(t string) string {
 		return "Go.Any"
 	case t == "string":
 		return "String"
+	case t == "char":
+		return "Char"
 	case t == "bytes":
-		return "Go.Bytes"
+		return leanBytes
+	case t == "[]bytes" && strings.Contains(leanBytes, " "):
+		return "List (" + leanBytes + ")"
 	case t == "error":
 		return "Go.Error"
 	case strings.HasPrefix(t, "[][]"):
@@ -588,6 +627,12 @@ func (f *impFn) expr(e ast.Expr) ev {
 	case *ast.BasicLit:
 		if x.Kind == token.INT {
 			return ev{nil, "(" + x.Value + " : Int)", "int"}
+		}
+		if x.Kind == token.CHAR && f.u.cfg != nil && f.u.cfg.byteSlices {
+			// a byte constant: printable ASCII without escapes reads the same in Lean
+			if len(x.Value) == 3 && x.Value[1] >= 0x20 && x.Value[1] < 0x7f && x.Value[1] != '\\' && x.Value[1] != '\'' {
+				return ev{nil, x.Value, "char"}
+			}
 		}
 		if x.Kind == token.STRING && f.u.cfg != nil {
 			if sv, err := strconv.Unquote(x.Value); err == nil {
@@ -897,12 +942,38 @@ func (f *impFn) call(x *ast.CallExpr) ev {
 // callExt: the calls of the impConfig units (strings, []byte(s), make, external and inlined functions).
 func (f *impFn) callExt(x *ast.CallExpr, fn string) (ev, bool) {
 	switch {
+	case fn == "[]byte" && len(x.Args) == 1 && f.u.cfg.byteSlices:
+		// []byte(s): a fresh copy of the bytes of s (strings are their bytes here)
+		a := f.expr(x.Args[0])
+		if a.t != "[]char" {
+			return f.errEv(x, "conversion []byte of "+a.t), true
+		}
+		return a, true
+	case fn == "make" && len(x.Args) == 2 && f.u.cfg.byteSlices:
+		// make([]byte, n): n zero bytes; panics when n < 0
+		t, ok := f.u.goType(x.Args[0])
+		n := f.expr(x.Args[1])
+		if !ok || t != "[]char" || n.t != "int" {
+			return f.errEv(x, "make other than make([]byte, n)"), true
+		}
+		return ev{conj(n.g, []string{"(Go.le (0 : Int) " + n.v + ")"}), "(Go.makeBytes " + n.v + ")", t}, true
 	case fn == "[]byte" && len(x.Args) == 1:
 		a := f.expr(x.Args[0])
 		if a.t != "string" {
 			return f.errEv(x, "conversion []byte of "+a.t), true
 		}
 		return ev{a.g, "(Go.bytesOfString " + a.v + ")", "bytes"}, true
+	case fn == "bytes.Equal" && len(x.Args) == 2 && f.u.cfg.byteElems:
+		// bytes.Equal(a, b): a and b have the same length and the same bytes (nil and empty are equal) -
+		// equality of the values
+		if _, shadow := f.locals["bytes"]; shadow || f.recv == "bytes" {
+			return f.errEv(x, "call of bytes.Equal where bytes is a variable"), true
+		}
+		a, b := f.expr(x.Args[0]), f.expr(x.Args[1])
+		if a.t != "bytes" || b.t != "bytes" {
+			return f.errEv(x, "bytes.Equal on "+a.t+", "+b.t), true
+		}
+		return ev{conj(a.g, b.g), "(Go.eq " + a.v + " " + b.v + ")", "bool"}, true
 	case fn == "strings.Compare" && len(x.Args) == 2:
 		a, b := f.expr(x.Args[0]), f.expr(x.Args[1])
 		if a.t != "string" || b.t != "string" {
@@ -1019,8 +1090,8 @@ func (f *impFn) sliceSources(e ast.Expr) []string {
 	case *ast.SliceExpr:
 		return f.sliceSources(x.X)
 	case *ast.CallExpr:
-		if exprString(x.Fun) == "make" {
-			return nil // freshly allocated
+		if exprString(x.Fun) == "make" || exprString(x.Fun) == "[]byte" {
+			return nil // freshly allocated (a conversion []byte(s) copies)
 		}
 		out := []string{}
 		for _, a := range x.Args {
@@ -1284,6 +1355,9 @@ func (f *impFn) block(stmts []ast.Stmt, tail, ind string) string {
 		}
 		if c, ok := s.X.(*ast.CallExpr); ok && exprString(c.Fun) == "sort.SliceStable" && f.u.timeInt {
 			return f.sliceStable(c, rest, tail, ind)
+		}
+		if c, ok := s.X.(*ast.CallExpr); ok && exprString(c.Fun) == "copy" && f.u.cfg != nil && f.u.cfg.byteSlices {
+			return f.copyStmt(c, rest, tail, ind)
 		}
 		f.bad(s, "expression statement "+exprString(s.X))
 	case *ast.DeferStmt:
@@ -1675,15 +1749,21 @@ func (f *impFn) forLoop(s *ast.ForStmt, rest []ast.Stmt, tail, ind string) strin
 		return ind + "if " + c.v + " then\n" + th + "\n" + ind + "else\n" + ind + "  some (Go.Ctl.done " + tupleOf(vars) + ")"
 	})
 	f.retWrap = ""
-	drop := f.dropAfterLoop
-	f.dropAfterLoop = ""
+	drops := []string{}
+	for _, d := range []string{f.dropAfterLoop, f.dropSnapshot} {
+		if d != "" {
+			drops = append(drops, d)
+		}
+	}
+	f.dropAfterLoop, f.dropSnapshot = "", ""
 	f.aux = append(f.aux, fmt.Sprintf("/-- one turn (condition, body, post statement) of for loop %d of %s -/\ndef %s%s :\n    %s → Option (Go.Ctl (%s) (%s))\n  | %s =>\n%s\n\n",
 		f.loops, f.where, name, params, stateT, stateT, f.resultT, tupleOf(vars), turn))
 	return guarded(fuel.g, ind, func(ind string) string {
 		head := ind + "match Go.loop (" + fuel.v + ".toNat + 1) " + tupleOf(vars) + " (" + name + args + ") with\n" +
 			ind + "| some (Go.Ctl.done " + tupleOf(vars) + ") =>\n"
-		if drop != "" { // the index variable of a range loop is not in scope after the loop
+		for _, drop := range drops { // the index variable of a range loop is not in scope after the loop
 			delete(f.locals, drop)
+			delete(f.readonly, drop)
 			for i, n := range f.declOrder {
 				if n == drop {
 					f.declOrder = append(append([]string{}, f.declOrder[:i]...), f.declOrder[i+1:]...)
@@ -1701,6 +1781,9 @@ func (f *impFn) forLoop(s *ast.ForStmt, rest []ast.Stmt, tail, ind string) strin
 // Go evaluates path once and sets i from a hidden counter on every turn; the two readings agree
 // because neither path nor i is assigned in the body (checked).
 func (f *impFn) rangeLoop(s *ast.RangeStmt, rest []ast.Stmt, tail, ind string) string {
+	if s.Value != nil && f.u.cfg != nil && f.u.cfg.byteElems {
+		return f.rangeValueLoop(s, rest, tail, ind)
+	}
 	key, ok := s.Key.(*ast.Ident)
 	if !ok || s.Value != nil || s.Tok != token.DEFINE || key.Name == "_" {
 		f.bad(s, "range statement other than  for i := range path")
@@ -1740,6 +1823,199 @@ func (f *impFn) rangeLoop(s *ast.RangeStmt, rest []ast.Stmt, tail, ind string) s
 		Body: s.Body}
 	f.dropAfterLoop = key.Name
 	return ind + "let " + leanIdent(key.Name) + " := (0 : Int)\n" + f.forLoop(loop, rest, tail, ind)
+}
+
+// pathString: e as a path  x | path.f  (no index, no call); "" otherwise
+func pathString(e ast.Expr) (path, root, last string) {
+	switch x := e.(type) {
+	case *ast.Ident:
+		return x.Name, x.Name, x.Name
+	case *ast.SelectorExpr:
+		if p, r, _ := pathString(x.X); p != "" {
+			return p + "." + x.Sel.Name, r, x.Sel.Name
+		}
+	}
+	return "", "", ""
+}
+
+// rangeValueLoop renders  for i, v := range path { body }  (i may be _). Go evaluates `path` ONCE: the
+// loop runs over the slice header (array, length) taken at loop entry; on turn k it sets i = k and
+// v = array[k]. The translation iterates over a SNAPSHOT of the value of path:
+//
+//	range_f := path; i := 0; for ; i < len(range_f); i++ { v := range_f[i]; body }
+//
+// With value semantics the snapshot is the contents of the array at loop entry, whereas Go reads
+// array[k] on turn k as it is THEN. The two agree when no turn writes an array cell that a LATER turn
+// reads, i.e. a cell beyond the current index. The body may therefore update `path` in two ways only:
+//
+//	path[i] = e      a write at the CURRENT range index (turn k writes cell k; later turns read cells > k);
+//	                 the element type has no interior (scalar / immutable bytes), so the path ends there
+//	path = path[:e]  shrinks the visible part, moves no cell (guarded e <= len path: never into spare capacity)
+//
+// Anything else that touches path is refused by name: a write at any other index (path[j] = …,
+// path[i+1] = …), an append (it may write array[len], a cell a later turn reads), path = path[a:…]
+// (a later path[i] would address cell a+i), any other assignment to path or to a prefix of it,
+// sort.SliceStable on it, and any assignment to i or v (Go resets them every turn from its own counter).
+func (f *impFn) rangeValueLoop(s *ast.RangeStmt, rest []ast.Stmt, tail, ind string) string {
+	fail := func(what string) string {
+		f.bad(s, what)
+		return ind + "sorryStmt"
+	}
+	val, ok := s.Value.(*ast.Ident)
+	key, okK := s.Key.(*ast.Ident)
+	if !ok || !okK || s.Tok != token.DEFINE || val.Name == "_" {
+		return fail("range statement other than  for i, v := range path  /  for _, v := range path")
+	}
+	path, rootName, last := pathString(s.X)
+	x := f.expr(s.X)
+	if path == "" || !strings.HasPrefix(x.t, "[]") || len(x.g) > 0 {
+		return fail("range over " + exprString(s.X) + " of type " + x.t + " (not a path x.f.g of slice type)")
+	}
+	el := x.t[2:]
+	if !(isScalar(el) || el == "bytes") {
+		return fail("range with a value variable over elements of type " + el + " (copying one would alias)")
+	}
+	counter := key.Name
+	if counter == "_" {
+		counter = "range_idx"
+	}
+	snap := "range_" + last
+	for _, n := range []string{counter, snap, val.Name} {
+		if _, dup := f.locals[n]; dup || n == f.recv {
+			return fail("range loop: " + n + " shadows a variable")
+		}
+	}
+	// what the body does to path, to its prefixes and to the loop variables
+	curIdx := path + "[" + counter + "]"
+	related := func(l string) bool {
+		under := func(a, b string) bool { return strings.HasPrefix(a, b+".") || strings.HasPrefix(a, b+"[") }
+		return l == path || under(l, path) || under(path, l)
+	}
+	bad := ""
+	check := func(lhs ast.Expr, st ast.Stmt) {
+		l := exprString(lhs)
+		if p, ok := lhs.(*ast.ParenExpr); ok {
+			l = exprString(p.X)
+		}
+		lp, lroot, _ := pathString(lhs)
+		if lp != "" && (lroot == key.Name && key.Name != "_" || lroot == val.Name) && lp == lroot {
+			bad = "assigns the range variable " + lp
+			return
+		}
+		if !related(l) {
+			return
+		}
+		as, isAs := st.(*ast.AssignStmt)
+		switch {
+		case l == curIdx && key.Name != "_" && isAs && as.Tok == token.ASSIGN && len(as.Lhs) == 1:
+			return // a write at the current range index
+		case l == path && isAs && as.Tok == token.ASSIGN && len(as.Lhs) == 1 && len(as.Rhs) == 1:
+			if se, isSl := as.Rhs[0].(*ast.SliceExpr); isSl && !se.Slice3 && se.Low == nil && se.High != nil && exprString(se.X) == path {
+				return // path = path[:e]
+			}
+		}
+		bad = "updates " + l + " while ranging over " + path + " other than by " + curIdx + " = e or " + path + " = " + path + "[:e]"
+	}
+	ast.Inspect(s.Body, func(n ast.Node) bool {
+		switch st := n.(type) {
+		case *ast.AssignStmt:
+			for _, l := range st.Lhs {
+				if st.Tok == token.DEFINE {
+					continue
+				}
+				check(l, st)
+			}
+		case *ast.IncDecStmt:
+			check(st.X, st)
+		case *ast.ExprStmt:
+			if c, ok := st.X.(*ast.CallExpr); ok && !f.isLockCall(c) && len(c.Args) > 0 {
+				check(c.Args[0], st) // sort.SliceStable(path, …), copy(path, …): in-place updates
+			}
+		case *ast.FuncLit, *ast.RangeStmt, *ast.ForStmt, *ast.GoStmt, *ast.DeferStmt:
+			bad = fmt.Sprintf("contains a %T", n)
+		case *ast.UnaryExpr:
+			if st.Op == token.AND {
+				bad = "takes an address (" + exprString(st) + ")"
+			}
+		}
+		return bad == ""
+	})
+	if bad != "" {
+		return fail("range loop over " + path + " whose body " + bad)
+	}
+	_ = rootName
+	// the snapshot and the counter
+	f.locals[snap] = x.t
+	f.declOrder = append(f.declOrder, snap)
+	f.readonly[snap] = true
+	if !f.declare(s, counter, "int") {
+		return ind + "sorryStmt"
+	}
+	at := s.Pos()
+	id := func(n string) *ast.Ident { return &ast.Ident{NamePos: at, Name: n} }
+	bind := &ast.AssignStmt{Lhs: []ast.Expr{id(val.Name)}, TokPos: at, Tok: token.DEFINE,
+		Rhs: []ast.Expr{&ast.IndexExpr{X: id(snap), Lbrack: at, Index: id(counter), Rbrack: at}}}
+	lenCall := &ast.CallExpr{Fun: id("len"), Args: []ast.Expr{id(snap)}}
+	loop := &ast.ForStmt{For: s.For,
+		Cond: &ast.BinaryExpr{X: id(counter), OpPos: at, Op: token.LSS, Y: lenCall},
+		Post: &ast.IncDecStmt{X: id(counter), TokPos: at, Tok: token.INC},
+		Body: &ast.BlockStmt{Lbrace: s.Body.Lbrace, List: append([]ast.Stmt{bind}, s.Body.List...), Rbrace: s.Body.Rbrace}}
+	f.dropAfterLoop, f.dropSnapshot = counter, snap
+	return ind + "let " + leanIdent(snap) + " := " + x.v + "\n" +
+		ind + "let " + leanIdent(counter) + " := (0 : Int)\n" + f.forLoop(loop, rest, tail, ind)
+}
+
+// copyStmt renders the statement  copy(path[a:b], src)  (also path[a:], path[:b], path): the first
+// min(len(window), len(src)) cells of the window path[a:b] are overwritten with src, as a functional update
+// of path (Go.copyAt path a (len window) src). src must not share path's backing array (then the order
+// in which Go moves overlapping cells would matter): every slice read in src is another variable, and path
+// is a local (a slice-typed local only exists when it was freshly allocated).
+func (f *impFn) copyStmt(c *ast.CallExpr, rest []ast.Stmt, tail, ind string) string {
+	fail := func(what string) string {
+		f.bad(c, what)
+		return ind + "sorryStmt"
+	}
+	if len(c.Args) != 2 || c.Ellipsis != token.NoPos {
+		return fail("call of copy")
+	}
+	var base ast.Expr = c.Args[0]
+	lo := "(0 : Int)"
+	if se, ok := base.(*ast.SliceExpr); ok {
+		if se.Slice3 {
+			return fail("copy into a 3-index slice expression")
+		}
+		base = se.X
+		if se.Low != nil {
+			l := f.expr(se.Low)
+			if l.t != "int" {
+				return fail("slice bound of type " + l.t)
+			}
+			lo = l.v
+		}
+	}
+	id, isId := base.(*ast.Ident)
+	if !isId {
+		return fail("copy into " + exprString(c.Args[0]) + " (not a window of a local variable)")
+	}
+	if _, isLocal := f.locals[id.Name]; !isLocal || f.readonly[id.Name] {
+		return fail("copy into " + exprString(c.Args[0]) + " (not a window of a local variable)")
+	}
+	win, src, cur := f.expr(c.Args[0]), f.expr(c.Args[1]), f.expr(base)
+	if !strings.HasPrefix(win.t, "[]") || !isScalar(win.t[2:]) || src.t != win.t {
+		return fail("copy of " + src.t + " into " + win.t)
+	}
+	for _, sname := range f.sliceSources(c.Args[1]) {
+		if sname == id.Name || strings.HasPrefix(sname, "<") {
+			return fail("copy whose source may share the backing array of " + id.Name)
+		}
+	}
+	g, root, val, ok := f.assign(base, "(Go.copyAt "+cur.v+" "+lo+" (Go.len "+win.v+") "+src.v+")")
+	if !ok {
+		return ind + "sorryStmt"
+	}
+	return guarded(conj(win.g, src.g, g), ind, func(ind string) string {
+		return ind + "let " + leanIdent(root) + " := " + val + "\n" + f.block(rest, tail, ind)
+	})
 }
 
 // sliceStable renders  sort.SliceStable(path, func(i, j int) bool { return E })  as
@@ -1850,6 +2126,10 @@ func translateImperativeCfg(cfg impConfig, specs []impSpec) string {
 	}
 	for _, d := range cfg.dropFields {
 		u.dropped[d] = true
+	}
+	if cfg.bytesLean != "" {
+		leanBytes = cfg.bytesLean
+		defer func() { leanBytes = "Go.Bytes" }()
 	}
 	return translateUnit(u, cfg.namespace, specs)
 }
@@ -2049,7 +2329,7 @@ func translateUnit(u *impUnit, namespace string, specs []impSpec) string {
 		}
 		if sp.frag != nil {
 			for _, r := range sp.frag.results {
-				if r != "error" && !isScalar(r) {
+				if r != "error" && !isScalar(r) && !(u.cfg.byteSlices && r == "[]char") {
 					if u.useStruct(r, true) == nil {
 						okSig = false
 						continue
@@ -2090,7 +2370,7 @@ func translateUnit(u *impUnit, namespace string, specs []impSpec) string {
 			tail = "some " + leanIdent(f.recv)
 		}
 		ret := strings.Join(resT, " × ")
-		if len(resT) > 1 {
+		if len(resT) > 1 || strings.Contains(ret, " ") {
 			ret = "(" + ret + ")"
 		}
 		f.resultT = strings.Join(resT, " × ")
@@ -2132,7 +2412,13 @@ func translateUnit(u *impUnit, namespace string, specs []impSpec) string {
 	}
 	var b strings.Builder
 	b.WriteString("-- GENERATED by /verif/extract (imperative.go) from " + strings.Join(sources, ", ") + " on every check run. Do not edit.\n")
-	b.WriteString("import Wasp.Model.GoPrelude\nset_option linter.unusedVariables false\nnamespace " + namespace + "\n\n")
+	b.WriteString("import Wasp.Model.GoPrelude\n")
+	if u.cfg != nil {
+		for _, im := range u.cfg.imports {
+			b.WriteString("import " + im + "\n")
+		}
+	}
+	b.WriteString("set_option linter.unusedVariables false\nnamespace " + namespace + "\n\n")
 	for _, name := range u.constOrder {
 		c := u.consts[name]
 		fmt.Fprintf(&b, "/-- translated from %s %s -/\ndef %s : %s := %s\n\n", c.rel, c.doc, leanIdent(c.name), leanType(c.typ), c.val)
